@@ -14,10 +14,14 @@ def main():
     ap.add_argument("--tier", default=os.environ.get("VERIF_TIER", "quick"))
     ap.add_argument("--replay")
     ap.add_argument("--only", action="append")
+    ap.add_argument("--call", nargs=2, metavar=("COND", "JSONARGS"), help="run one condition concretely (replay mode)")
     a = ap.parse_args()
     seed = int(os.environ.get("VERIF_SEED", "0") or 0)
     prop = a.prop.upper()
     module = "harness.%s" % prop.lower()
+    if a.call:
+        print(json.dumps(runner.replay(module, a.call[0], json.loads(a.call[1])), indent=1))
+        sys.exit(0)
     if a.replay:
         d = json.load(open(a.replay))
         if d.get("kind") == "custom":
